@@ -331,7 +331,34 @@ func C01(x *Ctx) {
 			}
 			x.Stats.Add("C01.part_units_decoded", len(pdec))
 			x.Stats.Add("C01.parts_decoded", len(parts))
-			if len(pdec) > 0 {
+			// parts are listed under the last two segments and the open one only: when one Write call
+			// (several access units) rotated more than one segment, parts of the segments in between
+			// were never listed in any playlist that could be observed, so the run of decoded parts
+			// need not be complete
+			multiRot := false
+			for _, r := range h.Rounds {
+				n := 0
+				for _, k := range r.Rotated {
+					if k == "segments" {
+						n++
+					}
+				}
+				if n >= 2 {
+					multiRot = true
+				}
+			}
+			if multiRot {
+				x.Stats.Add("C01.parts_not_fully_observable", 1)
+				for _, d := range pdec {
+					if ui, ok := unitOfSample[d.Idx]; ok && d.Idx >= 0 {
+						var next *expUnit
+						if ui+1 < len(exp) {
+							next = &exp[ui+1]
+						}
+						x.checkUnit(track, d, exp[ui], next, "part")
+					}
+				}
+			} else if len(pdec) > 0 {
 				if pdec[0].Idx != want[0].Idx {
 					x.fail("start", "part-start", "track %d: parts begin at unit %d, expected %d", track, pdec[0].Idx, want[0].Idx)
 				}
